@@ -46,6 +46,7 @@ def cases(tier, seed):
                 continue
             (related if (issubclass(a, b) or issubclass(b, a)) else other).append([gen.class_name(a), gen.class_name(b)])
     rng = gen.rng_for(seed, PROP, "pairs")
+    all_other = list(other)
     if tier == "quick":
         # every ordered pair within one kit (state shared by the classes of a kit module can only be seen by such a pair),
         # plus a seeded sample of the cross-kit pairs (state shared through the core is seen by any pair)
@@ -70,7 +71,7 @@ def cases(tier, seed):
     # (the CIDAR / original-MoClo twins over the isoschizomers BbsI / BpiI ...) and a sample of the others
     # (asked of a child process: calling structure() here would put the parent - and through it every baseline - past a
     # first use of every class)
-    twins = in_child(lambda: [p for p in other if gen.class_by_name(p[0]).structure() == gen.class_by_name(p[1]).structure()])
+    twins = in_child(lambda: [p for p in all_other if gen.class_by_name(p[0]).structure() == gen.class_by_name(p[1]).structure()])
     twins = [list(p) for p in twins]
     rest = [p for p in other if p not in twins]
     rng2 = gen.rng_for(seed, PROP, "same-text")
